@@ -474,6 +474,11 @@ func c10Gen(r *Rng, tier string, idx int) (string, func() string) {
 		blocks := r.Range(0, 3)
 		return fmt.Sprintf("src %s opens 0 sched seq k %d rounds %d wr %d blocks %d", kind, k, rounds, wr, blocks),
 			func() string { return lcSeq(kind, idx, k, rounds, wr == 1, blocks) }
+	case c < 31:
+		kd := []string{"err", "loop"}[r.Intn(2)]
+		second := b2i(r.Chance(40))
+		return fmt.Sprintf("src %s opens 0 sched stopDecided second %d", kd, second),
+			func() string { return lcStopDecided(kd, idx, second == 1) }
 	case c < 82:
 		k := r.Range(1, 4)
 		rounds := r.Range(1, 2)
@@ -743,6 +748,39 @@ func lcStartRunFail(idx, nfail int, withReq bool, k int, first bool) string {
 			c.wait(3 * time.Second)
 		}
 	}
+	return h.finish(true)
+}
+
+// lcStopDecided: a Stop call is parked INSIDE its lock section, after it has decided "the source is Active" and
+// before it writes Stopping (site stop.onActive), while the source ends by itself (error block).  With the lock
+// held the core loop's RunDoneDeactivate cannot run until Stop is released, so the write lands on an Active
+// source.  Nothing here may touch the state lock while Stop is parked (no GetState): the harness waits on the
+// trace and on a short arrival timeout instead.  Afterwards the same object must be startable again.
+func lcStopDecided(kind string, idx int, second bool) string {
+	h := lcNew(kind, idx)
+	dastard.VerifPointsOn()
+	dastard.VerifGate("prod.sendError", "stop.onActive")
+	s := h.spawnStart()
+	if !s.wait(3*time.Second) || s.ret != 0 {
+		return h.finish(true)
+	}
+	h.flagOn()
+	if kind == "loop" {
+		h.feedBlocks(0, true)
+	}
+	lcWaitTrace(time.Second, func(tr []dastard.VerifEvent) bool { return lcCount(tr, "prod.sendError") > 0 })
+	k := h.spawnStop() // parks at stop.onActive, holding the state lock
+	h.release("P")     // the error block reaches the loop: it leaves its loop and heads for RunDoneDeactivate
+	lcWaitTrace(time.Second, func(tr []dastard.VerifEvent) bool { return lcCount(tr, "loop.gotError") > 0 })
+	time.Sleep(30 * time.Millisecond) // arrival timeout: a deactivation blocked on the state lock does not arrive
+	h.release(k.role)
+	k.wait(3 * time.Second)
+	if second {
+		h.spawnStop().wait(3 * time.Second)
+	}
+	lcWaitTrace(time.Second, func(tr []dastard.VerifEvent) bool { return lcCount(tr, "run.deactivate") > 0 })
+	lcSettle()
+	h.spawnStart().wait(3 * time.Second) // the same object must be startable again
 	return h.finish(true)
 }
 
